@@ -81,7 +81,10 @@ func (v *PolicyVerifier) VerifyRef(ctx context.Context, target string) (githash.
 		return gitinterface.ZeroHash, err
 	}
 
-	return latestEntry.GetTargetID(), v.VerifyRelativeForRef(ctx, latestEntry, latestEntry, target)
+	// Only the latest entry is verified, so it cannot be recorded as the entry
+	// up to which the reference has been verified: a later full verification
+	// would start from it and skip the entries before it
+	return latestEntry.GetTargetID(), v.verifyRelativeForRef(ctx, latestEntry, latestEntry, target, false)
 }
 
 // VerifyRefFull verifies the entire RSL for the target ref from the first
@@ -450,6 +453,14 @@ func (v *PolicyVerifier) VerifyNetwork(ctx context.Context) error {
 // VerifyRelativeForRef verifies the RSL between specified start and end entries
 // using the provided policy entry for the first entry.
 func (v *PolicyVerifier) VerifyRelativeForRef(ctx context.Context, firstEntry, lastEntry rsl.ReferenceUpdaterEntry, target string) error {
+	return v.verifyRelativeForRef(ctx, firstEntry, lastEntry, target, true)
+}
+
+// verifyRelativeForRef implements VerifyRelativeForRef. When
+// recordLastVerified is false, the persistent cache is not told which entry the
+// reference has been verified up to, as the entries before firstEntry have not
+// been verified.
+func (v *PolicyVerifier) verifyRelativeForRef(ctx context.Context, firstEntry, lastEntry rsl.ReferenceUpdaterEntry, target string, recordLastVerified bool) error {
 	/*
 		require firstEntry != nil
 		require lastEntry != nil
@@ -609,7 +620,7 @@ func (v *PolicyVerifier) VerifyRelativeForRef(ctx context.Context, firstEntry, l
 						// Fix entry does not exist after revoking annotation
 						return verificationErr
 					}
-				} else if v.persistentCacheEnabled {
+				} else if v.persistentCacheEnabled && recordLastVerified {
 					// Verification has passed, add to cache
 					v.persistentCache.SetLastVerifiedEntryForRef(entry.GetRefName(), entry.GetNumber(), entry.GetID())
 				}
@@ -737,7 +748,7 @@ func (v *PolicyVerifier) VerifyRelativeForRef(ctx context.Context, firstEntry, l
 
 		entries = newEntryQueue
 
-		if v.persistentCacheEnabled {
+		if v.persistentCacheEnabled && recordLastVerified {
 			v.persistentCache.SetLastVerifiedEntryForRef(fixEntry.RefName, fixEntry.GetNumber(), fixEntry.GetID())
 		}
 	}
